@@ -630,8 +630,15 @@ def pattern_consti32(context, tree):
     return d
 
 
+def fits_clui_addi(value):
+    """Test if value can be loaded with c.lui, which has a non zero 6 bits
+    signed immediate, followed by addi."""
+    upper = (value + 0x800) >> 12
+    return upper != 0 and upper in range(-32, 32)
+
+
 @rvcisa.pattern(
-    "reg", "CONSTI32", size=3, condition=lambda t: t.value < 0x20000
+    "reg", "CONSTI32", size=3, condition=lambda t: fits_clui_addi(t.value)
 )
 def pattern_consti32_2(context, tree):
     d = context.new_reg(RiscvRegister)
